@@ -33,6 +33,8 @@ EXTRA_KEYS = ["zz1", "zz2", "foo_bar_9"]
 def leaf_schemas():
     out = [{"k": "str"}, {"k": "bool"}, {"k": "num", "f32": False}, {"k": "num", "f32": True}]
     out += [{"k": "int", "f": f} for f in INT_FORMATS]
+    # `type: string` with a NUMERIC format (Google-style 64-bit numbers): from_format types the member as a number (F02-9)
+    out += [{"k": "str", "f": "int64"}, {"k": "str", "f": "int32"}, {"k": "str", "f": "double"}]
     return out
 
 
@@ -77,7 +79,7 @@ def gen_obj(r, depth, used):
     for n in names:
         s = gen_schema(r, depth, used)
         d = None
-        if s["k"] == "str" and r.random() < 0.35:
+        if s["k"] == "str" and not s.get("f") and r.random() < 0.35:      # (a string default on a member typed as a number is C17 matter)
             d = r.choice(["dd", "x", ""])
         props.append({"n": n, "s": s, "req": r.random() < 0.5, "d": d})
     a = r.random()
@@ -107,7 +109,7 @@ class Render:
     def scalar_type(self, s):
         k = s["k"]
         if k == "str":
-            return "string", {}
+            return "string", ({"format": s["f"]} if s.get("f") else {})
         if k == "bool":
             return "boolean", {}
         if k == "num":
@@ -245,7 +247,7 @@ def spec_of(schema):
 def inst(s, r, wild=0.03):
     k = s["k"]
     if k == "str":
-        return r.choice(STRS)
+        return r.choice(STRS + (["123", "0", "-5", "1.5"] if s.get("f") else []))
     if k == "bool":
         return r.random() < 0.5
     if k == "num":
@@ -429,7 +431,7 @@ def exhaustive(ctx, r):
                     s = w(copy.deepcopy(leaf))
                     props = [{"n": "m", "s": s, "req": req, "d": None}]
                     if wi == 0 and leaf["k"] == "str":
-                        for d in (None, "dd"):
+                        for d in ((None, "dd") if not leaf.get("f") else (None,)):
                             for sib in (False, True):
                                 ps = [dict(props[0], d=d)] + ([{"n": "z", "s": {"k": "int", "f": "int32"}, "req": True, "d": None}] if sib else [])
                                 out.append({"k": "obj", "props": ps, "addl": copy.deepcopy(addl)})
